@@ -78,6 +78,39 @@ def max_clock_reads(f) -> tuple[int, list[str]]:
     return total, sites
 
 
+def command_ordering(chk: Check, repo: Repo, cls) -> None:
+    """stop(): current_position() is evaluated before any attribute of the calculator is written (the estimate depends
+    on travel_direction, the last known position, the target and the timestamp).  start_travel(): every attribute
+    write on the travelling path comes after self.stop() has frozen the estimate, and the values written are computed
+    from the parameter and attributes read after that point (no local computed before stop())."""
+    st = cls.methods["stop"]
+    cfg = CFG(st.node)
+    est = [n for n in cfg.nodes if n.ast is not None and n.kind == "stmt" and any(isinstance(x, ast.Call) and call_name(x) == "self.current_position" for x in ast.walk(n.ast))]
+    writes = [n for n in cfg.nodes if n.ast is not None and n.kind == "stmt" and isinstance(n.ast, (ast.Assign, ast.AugAssign, ast.AnnAssign)) and any(isinstance(t, ast.Attribute) and isinstance(t.ctx, ast.Store) for t in ast.walk(n.ast))]
+    ok = len(est) == 1 and bool(writes) and all(cfg.dominates(est[0].id, w.id) for w in writes)
+    early = [canon(w.ast)[:50] for w in writes if est and not cfg.dominates(est[0].id, w.id)]
+    chk.ob("estimate-frozen-before-state-changes", st.site(), ok, f"stop(): current_position() precedes every attribute write" + (f" — written before the estimate is taken: {early}" if early else ""), key="order|stop")
+    sv = cls.methods["start_travel"]
+    cfg = CFG(sv.node)
+    stops = [n for n in cfg.nodes if n.ast is not None and n.kind == "stmt" and any(isinstance(x, ast.Call) and call_name(x) == "self.stop" for x in ast.walk(n.ast))]
+    writes = [n for n in cfg.nodes if n.ast is not None and n.kind == "stmt" and isinstance(n.ast, (ast.Assign, ast.AugAssign, ast.AnnAssign)) and any(isinstance(t, ast.Attribute) and isinstance(t.ctx, ast.Store) for t in ast.walk(n.ast))]
+    params = {a.arg for a in sv.node.args.args}
+    ok = len(stops) == 1 and bool(writes)
+    probs = []
+    for w in writes:
+        if not stops or not cfg.dominates(stops[0].id, w.id):
+            ok = False
+            probs.append(f"`{canon(w.ast)[:50]}` is not preceded by self.stop()")
+            continue
+        for x in ast.walk(w.ast.value if not isinstance(w.ast, ast.AugAssign) else w.ast.value):
+            if isinstance(x, ast.Name) and isinstance(x.ctx, ast.Load) and x.id not in params and x.id not in ("self", "time", "TravelStatus"):
+                defs = [n for n in cfg.nodes if n.ast is not None and n.kind == "stmt" and isinstance(n.ast, (ast.Assign, ast.AnnAssign)) and any(isinstance(t, ast.Name) and t.id == x.id and isinstance(t.ctx, ast.Store) for t in ast.walk(n.ast))]
+                if not defs or not all(cfg.dominates(stops[0].id, d.id) for d in defs):
+                    ok = False
+                    probs.append(f"`{canon(w.ast)[:50]}` uses `{x.id}`, computed before self.stop() froze the estimate")
+    chk.ob("new-movement-derived-from-the-frozen-estimate", sv.site(), ok, "start_travel(): every attribute write follows self.stop() and uses only values read after it" + (" — " + "; ".join(probs) if probs else ""), key="order|start_travel")
+
+
 def run(chk: Check, repo: Repo) -> None:
     cls = repo.cls(M, "TravelCalculator")
     tree = call_tree(repo, "current_position")
@@ -127,6 +160,8 @@ def run(chk: Check, repo: Repo) -> None:
     for q in ("current_position", "is_traveling", "position_reached", "stop", "start_travel", "update_position", "set_position", "is_open", "is_closed"):
         if q in cls.methods:
             check_entry(chk, mr, cls.methods[q], (), label=f"TravelCalculator.{q}", reviewed=reviewed)
+    # (e) command ordering: the estimate is frozen under the old movement state, the new state is derived from it
+    command_ordering(chk, repo, cls)
     # (d) integer results
     for q in ("current_position", "_calculate_position"):
         f = cls.methods[q]
